@@ -31,6 +31,10 @@ OUT = os.path.join(VERIF, 'out')
 NCPU = min(16, os.cpu_count() or 1)
 
 
+class _ShrinkTimeout(BaseException):
+    """Raised inside a Hypothesis test to abort shrinking when its time budget is used up."""
+
+
 class Violation(Exception):
     """The property is violated. sig = stable root-cause signature (string);
     case = JSON-able reproduction input; msg = human-readable detail."""
@@ -149,7 +153,7 @@ class Recorder:
 # Hypothesis driving
 # ---------------------------------------------------------------------------
 def hyp_run(rec, strategy, oracle, max_examples, seed, shrink=True, max_buckets=4,
-            shrink_budget_s=90.0, stateful_step_count=None):
+            shrink_budget_s=60.0, stateful_step_count=None):
     """Run `oracle(case)` over `strategy` with Hypothesis.
 
     oracle raises Violation on failure. Violations in a known class are counted
@@ -173,12 +177,8 @@ def hyp_run(rec, strategy, oracle, max_examples, seed, shrink=True, max_buckets=
         @given(strategy)
         def test(case):
             if state['t0'] is not None and time.time() - state['t0'] > shrink_budget_s:
-                # stop shrinking: anything not already known to fail is treated as
-                # passing, so Hypothesis settles on the best failure found so far
-                known = state['failing'].get(digest(case))
-                if known is not None:
-                    raise known
-                return
+                # stop shrinking: abort the run and report the best failure found so far
+                raise _ShrinkTimeout()
             try:
                 oracle(case)
             except Violation as v:
@@ -197,6 +197,12 @@ def hyp_run(rec, strategy, oracle, max_examples, seed, shrink=True, max_buckets=
 
         try:
             test()
+        except _ShrinkTimeout:
+            v = state['last']
+            rec.note('shrink-timeout')
+            rec.violation(v)
+            excluded.add(v.sig)
+            continue
         except Violation as v:
             v = state['last'] or v
             rec.violation(v)
